@@ -62,6 +62,9 @@ def load_path(file_obj, file_type: Optional[str] = None, **kwargs):
         elif isinstance(file_obj, dict):
             # load as kwargs
             kwargs = file_obj
+            if any(isinstance(e, dict) for e in kwargs.get("entities", [])):
+                # entities exported as plain dicts by `Path.to_dict`
+                kwargs = misc.dict_to_path(kwargs)
         elif util.is_sequence(file_obj):
             # load as lines in space
             kwargs.update(misc.lines_to_path(file_obj))
